@@ -1,4 +1,5 @@
 import SpoxModel.Lemmas.Tensor
+import SpoxModel.Lemmas.Attr
 /-!
 # C10 — constants and attributes are embedded exactly and captured at the call
 
@@ -61,5 +62,174 @@ theorem roundtrip (q : Bool) (a : Arr) (name : String) (h : a.WF) :
     | (refine ⟨?_, hs.symm⟩; apply List.map_congr_left; intro w _; exact quiet32_idem q w)
     | exact hs.symm
     | (subst hw; rw [mapM_decode_encode]; rfl)
+
+
+/-- `canon` only ever sets the quiet bit of float32 components that are signalling NaNs; dtype,
+    shape, strings, the number of words and every other word are untouched. -/
+theorem canon_spec (q : Bool) (a : Arr) :
+    (canon q a).dtype = a.dtype ∧ (canon q a).shape = a.shape ∧ (canon q a).strs = a.strs ∧
+    (canon q a).words.length = a.words.length ∧
+    ∀ i (hi : i < a.words.length), ∃ hi' : i < (canon q a).words.length,
+      (canon q a).words[i] = a.words[i] ∨
+        (isNaN32 a.words[i] = true ∧ quietBit32 a.words[i] = false ∧
+          (canon q a).words[i] = a.words[i] + 2 ^ 22) := by
+  obtain ⟨d, shape, words, strs⟩ := a
+  cases d
+  case float32 | complex64 =>
+    refine ⟨rfl, rfl, rfl, by simp [canon], ?_⟩
+    intro i hi
+    refine ⟨by simpa [canon] using hi, ?_⟩
+    simp only [canon, List.getElem_map]
+    exact quiet32_spec q _
+  all_goals exact ⟨rfl, rfl, rfl, rfl, fun i hi => ⟨hi, Or.inl rfl⟩⟩
+
+/-- Bit-exact round trip: nothing at all changes unless a float32 component is a signalling NaN
+    on a quietening platform. Covers NaN payloads with the quiet bit, −0.0, denormals, infinities,
+    every integer pattern of every width (uint64 above 2^63 included), empty and 0-d shapes. -/
+theorem roundtrip_exact (q : Bool) (a : Arr) (name : String) (h : a.WF)
+    (hq : q = false ∨ (a.dtype ≠ .float32 ∧ a.dtype ≠ .complex64) ∨ ∀ w ∈ a.words, isNaN32 w = false) :
+    ∃ t, fromArray q a name = some t ∧ toArray q t = some a := by
+  obtain ⟨t, h1, h2⟩ := roundtrip q a name h
+  refine ⟨t, h1, ?_⟩
+  rw [h2]
+  congr 1
+  obtain ⟨d, shape, words, strs⟩ := a
+  cases d
+  case float32 | complex64 =>
+    have key : words.map (quiet32 q) = words := by
+      rcases hq with hq | hq | hq
+      · subst hq; exact map_eq_self (fun w _ => quiet32_off w)
+      · simp at hq
+      · exact map_eq_self (fun w hw => quiet32_not_nan q w (hq w hw))
+    simp only [canon, key]
+  all_goals rfl
+
+/-- **The Var has exactly the array's type.** The element type and shape that ONNX type inference
+    (Constant) / `Tensor(arr.dtype, arr.shape)` (initializer, argument default) read off the embedded
+    tensor are the array's own. -/
+theorem const_type_exact (q : Bool) (a : Arr) (name : String) (t : TProto)
+    (h : fromArray q a name = some t) : typeOfProto t = some (a.dtype, a.shape) := by
+  obtain ⟨d, shape, words, strs⟩ := a
+  cases d <;>
+    simp only [fromArray, enumOf, onnxDType, fieldOf, ne_eq, not_true_eq_false, if_false,
+      Option.some.injEq] at h <;> subst h <;> rfl
+
+/-- `const(value, dtype)` = `constant(value=np.array(value, dtype))`: numpy's conversion is a
+    parameter; all that is assumed of it is that it delivers the requested element type and keeps
+    the shape. Then the Var has the *requested* type. -/
+theorem const_requested_dtype (q : Bool) (npArray : Arr → DType → Arr)
+    (hnp : ∀ a d, (npArray a d).dtype = d ∧ (npArray a d).shape = a.shape)
+    (a : Arr) (d : DType) (t : TProto) (h : fromArray q (npArray a d) "" = some t) :
+    typeOfProto t = some (d, a.shape) := by
+  rw [const_type_exact q _ _ t h, (hnp a d).1, (hnp a d).2]
+
+/-- `from_array` succeeds on every array (no element type is left without enum or field). -/
+theorem fromArray_total (q : Bool) (a : Arr) (name : String) : (fromArray q a name).isSome = true := by
+  obtain ⟨d, shape, words, strs⟩ := a
+  cases d <;> rfl
+
+/-! Non-vacuity and the special values of the statement. -/
+section examples
+def ex (d : DType) (shape : List Nat) (ws : List Nat) : Arr := ⟨d, shape, ws, []⟩
+-- uint64 beyond the signed range stays in `uint64_data`, unchanged
+example : (fromArray true (ex .uint64 [2] [2 ^ 64 - 1, 2 ^ 63])).map (·.uint64Data) = some [18446744073709551615, 9223372036854775808] := by decide
+-- int8 −1 and int16 −32768 are sign-extended into int32_data and come back
+example : (fromArray true (ex .int8 [1] [255])).map (·.int32Data) = some [-1] := by decide
+example : (fromArray true (ex .int16 [] [32768])).bind (toArray true) = some (ex .int16 [] [32768]) := by decide
+-- float16 NaN / −0.0 patterns travel as their uint16 view
+example : (fromArray true (ex .float16 [2] [0x7c01, 0x8000])).map (·.int32Data) = some [31745, 32768] := by decide
+-- a signalling float32 NaN is quietened (only) when the platform does so
+example : (fromArray true (ex .float32 [1] [0x7f800001])).map (·.floatData) = some [0x7fc00001] := by decide
+example : (fromArray false (ex .float32 [1] [0x7f800001])).map (·.floatData) = some [0x7f800001] := by decide
+-- −0.0, quiet NaN with payload, denormal: exact
+example : (fromArray true (ex .float32 [3] [0x80000000, 0x7fc00123, 1])).bind (toArray true) = some (ex .float32 [3] [0x80000000, 0x7fc00123, 1]) := by decide
+-- empty and zero-dimensional arrays
+example : (fromArray true (ex .float64 [0, 2] [])).bind (toArray true) = some (ex .float64 [0, 2] []) := by decide
+example : (fromArray true (ex .bool [] [1])).bind (toArray true) = some (ex .bool [] [1]) := by decide
+-- non-ASCII strings: "ü" is the two bytes C3 BC
+example : (fromArray true ⟨.str, [1], [], [['ü']]⟩).map (fun t => t.stringData.map (·.toList)) = some [[0xC3, 0xBC]] := by decide +kernel
+end examples
+
+/-! ## Part 2 — attribute kinds and validation -/
+open Attr Generated.AttrKinds
+
+/-- The declared `AttributeProto` type of every class is the one ONNX means (generated table). -/
+theorem generated_kinds_exact (c : Cls) : kindOf c = specKind c := by cases c <;> rfl
+
+/-- The model knows every public `Attr` class of the module, and none has disappeared. -/
+theorem generated_classes_complete : unknownClasses = [] ∧ missingClasses = [] := by decide
+
+/-- The guards the TypeError guarantee rests on are in the source. -/
+theorem generated_guards : tensorGuard = true ∧ validateCatchAll = true ∧
+    dtypeCatches.contains "ValueError" = true ∧ dtypeCatches.contains "KeyError" = true := by decide
+
+/-- **Kind exactness.** Whenever a constructor returns, the attribute is emitted under the name it
+    was given and with the ONNX attribute type of its class. -/
+theorem attr_kind_exact (q : Bool) (c : Cls) (name : String) (v sv : PyVal) (p : AProto)
+    (h : construct q c name v = .ok (sv, p)) : p.name = name ∧ p.type = specKind c := by
+  have hv : ∀ (st : PyVal) (po : Option AProto), (∀ p', po = some p' → p'.name = name) →
+      validated c st po = .ok (sv, p) → p.name = name ∧ p.type = specKind c := by
+    intro st po hn hval
+    unfold validated at hval
+    cases po with
+    | none => simp at hval
+    | some p' =>
+      simp only at hval
+      split at hval
+      · simp at hval
+      · rename_i hty
+        simp only [Except.ok.injEq, Prod.mk.injEq] at hval
+        obtain ⟨_, rfl⟩ := hval
+        exact ⟨hn _ rfl, by rw [← generated_kinds_exact]; simpa using hty⟩
+  have hsc : ∀ a p', scalarProto q name a = some p' → p'.name = name := by
+    intro a p' h'
+    cases a <;> simp only [scalarProto] at h' <;> (try split at h') <;> simp at h' <;> (try subst h') <;> rfl
+  cases c
+  case float32 =>
+    cases v with
+    | seq items => simp [construct, validated, validateCatchAll] at h
+    | atom a =>
+      refine hv _ _ ?_ h
+      intro p' hp'
+      cases a <;> simp only at hp' <;>
+        first
+          | exact hsc _ _ hp'
+          | (simp only [Option.map_eq_some_iff] at hp'; obtain ⟨_, _, rfl⟩ := hp'; rfl)
+          | (simp only [Option.some.injEq] at hp'; subst hp'; rfl)
+  case int64 | string | type_ =>
+    cases v with
+    | seq items => simp [construct, validated, validateCatchAll] at h
+    | atom a => exact hv _ _ (hsc a) h
+  case tensor =>
+    cases v with
+    | seq items => simp [construct, tensorGuard] at h
+    | atom a =>
+      cases a <;> simp only [construct, tensorGuard, if_true, reduceCtorEq] at h
+      · exact hv _ _ (hsc _) h
+      · simp [validated, validateCatchAll] at h
+  case dtype =>
+    cases v with
+    | seq items => simp [construct] at h
+    | atom a =>
+      cases a <;> simp only [construct, reduceCtorEq] at h
+      rename_i d
+      cases d <;> simp only [construct, reduceCtorEq] at h
+      · split at h <;> simp at h
+      · simp only [Except.ok.injEq, Prod.mk.injEq] at h; obtain ⟨_, rfl⟩ := h; exact ⟨rfl, rfl⟩
+  case graph =>
+    cases v with
+    | seq items => simp [construct] at h
+    | atom a =>
+      cases a <;> simp only [construct, reduceCtorEq] at h
+      simp only [Except.ok.injEq, Prod.mk.injEq] at h; obtain ⟨_, rfl⟩ := h; exact ⟨rfl, rfl⟩
+  all_goals
+    simp only [construct] at h
+    split at h
+    · simp at h
+    · refine hv _ _ ?_ h
+      intro p' hp'
+      simp only [Option.map_eq_some_iff] at hp'
+      obtain ⟨_, _, rfl⟩ := hp'
+      rfl
 
 end C10
